@@ -62,6 +62,8 @@ CLASSIFIER_SPEC = [
     # whose literals contain hyphens
     ("${d1} - ${n}", "date", True), ("decimal-date-time(${d1}) - 7", "date", True), ("today() - 1", "date", True), ("${lat} - 1", "geopoint", True),
     ("2022-03-14", "date", False), ("1 - 1", "integer", True),
+    # a positional predicate makes a path an expression (it is not literal text), as the classifier's contract says
+    ("../q1[1]", "text", True), ("item[2]", "text", True), ("/data/r[position() = 1]/q", "text", True),
     # comparison / boolean words and markup characters in a literal text are just text
     ("a < b", "text", False), ("<none>", "text", False), ("k=v", "text", False), ("R&D <b>x</b> ]]>", "text", False), ("this and that", "text", False), ("yes or no", "text", False),
 ]
@@ -75,6 +77,20 @@ def _classifier_rule(ctx, prop="C10", rid="C10.R6"):
     if not isinstance(rules_map, dict) or not all(isinstance(v, str) for v in rules_map.values()):
         raise AnalysisError(rid, "LEXER_RULES did not fold to a table of patterns")
     dd = ctx.func("pyxform.utils:default_is_dynamic", rid)
+    # table agreement: every token name the classifier tests for is a rule the lexer can emit (a name that no rule
+    # carries never matches, silently)
+    import re as _re_t
+    tested = set()
+    for n_ in ast.walk(dd.node):
+        if isinstance(n_, ast.Constant) and isinstance(n_.value, str) and _re_t.fullmatch(r"[A-Z][A-Z0-9]*(_[A-Z0-9]+)+", n_.value):
+            tested.add(n_.value)
+        elif isinstance(n_, ast.Name) and n_.id.isupper():
+            v_ = ctx.consts.try_get(dd.module.name, n_.id)
+            if isinstance(v_, set | frozenset | tuple | list):
+                tested |= {x for x in v_ if isinstance(x, str) and _re_t.fullmatch(r"[A-Z][A-Z0-9]*(_[A-Z0-9]+)+", x)}
+    unknown = sorted(t for t in tested if t not in rules_map)
+    r6.check(bool(tested) and not unknown, "default_is_dynamic:token names", f"the token names tested ({sorted(tested)}) are rules of the lexer", dd.loc(),
+             why_fail=f"not lexer rules: {unknown}")
 
     def h_parse(i, a, k, n):
         text = a[0] if a else k.get("text")
